@@ -1,5 +1,6 @@
 import DivanModel.Driver.Util
 import DivanModel.Model.Prog
+import DivanModel.Model.TreeOrder
 /-! Registry lab handler (`reg`): parses an abstract benchmark program + run configuration, runs the
     front-end model (`Prog.run`) and evaluates the executable specifications of C12-C17 on what the
     implementation did. Spec functions here are written from the property texts and work on the
@@ -204,6 +205,9 @@ structure Case where
   arg : Option String
   path : String
   chain : List (Option Opts)       -- benchmark first, then enclosing groups innermost first
+  rawComps : List String := []     -- the node's identity: raw module / function names, then type / const / argument
+  hasArg : Bool := false
+  fnLevel : Nat := 0               -- a plain benchmark's own node is a leaf (distinct from a module of the same name)
   deriving Inhabited
 
 /-- the `bench_group` on module `path` (= parent path ++ [raw]), if any -/
@@ -230,18 +234,20 @@ def specCases (items : List Item) : List Case :=
     | .bench m slot args =>
       let (comps, chain) := modChain items m.modPath
       let base := "::".intercalate (comps ++ [m.disp])
+      let raw := m.modPath ++ [m.raw]
       match args with
-      | none => [⟨slot, none, base, m.opts :: chain⟩]
-      | some as => as.map fun a => ⟨slot, some a, base ++ "::" ++ a, m.opts :: chain⟩
+      | none => [⟨slot, none, base, m.opts :: chain, raw, false, raw.length⟩]
+      | some as => as.map fun a => ⟨slot, some a, base ++ "::" ++ a, m.opts :: chain, raw ++ [a], true, raw.length⟩
     | .generic m insts _ _ =>
       let (comps, chain) := modChain items m.modPath
       insts.flatMap fun b =>
         let tail := (match b.ty with | some t => [typeDisplay t] | none => []) ++
                     (match b.const with | some c => [c.name] | none => [])
         let base := "::".intercalate (comps ++ [m.disp] ++ tail)
+        let raw := m.modPath ++ [m.raw] ++ tail
         match b.args with
-        | none => [⟨b.slot, none, base, m.opts :: chain⟩]
-        | some as => as.map fun a => ⟨b.slot, some a, base ++ "::" ++ a, m.opts :: chain⟩
+        | none => [⟨b.slot, none, base, m.opts :: chain, raw, false, 0⟩]
+        | some as => as.map fun a => ⟨b.slot, some a, base ++ "::" ++ a, m.opts :: chain, raw ++ [a], true, 0⟩
 
 /-- C13: selected iff no skip filter matches and (there are no positive filters or one matches) -/
 def specSelected (pos neg : List FilterSpec) (p : String) : Bool :=
@@ -277,6 +283,13 @@ def labelOf (line : String) : String :=
     | c :: r => c :: cut r
     | [] => []
   String.ofList (cut cs)
+
+/-- is every sibling set of the (filtered, sorted) tree well-formed in the sense of `Prog.sibOk`, the
+    hypothesis of the order theorems in `Props/C16Order.lean`? -/
+partial def levelsOk (ts : List Tree) : Bool :=
+  sibOk ts && ts.all fun t => match t with
+    | .parent _ _ ch => levelsOk ch
+    | .leaf .. => true
 
 /-- `("│  " | "   ")* ("├─ " | "╰─ ")` split off a line; rows without a branch glyph have no prefix -/
 def treePrefix (line : String) : String × String :=
@@ -559,6 +572,15 @@ def handleCore (mac : Bool) (args : List String) (obs : String) : Option Reply :
         | some (s, _, _) => [s!"[C12][C13][C17] a benchmark function without a Bencher was called although its case is not selected (slot {s})"]
         | none => [])
      else if mac ∧ listing ∧ !implK.isEmpty then ["[C14] listing invoked benchmarked functions"] else []) ++
+    -- C17: the argument list of a benchmark is evaluated once per process (and shared by its instantiations)
+    (let counts := ((seg 'E').splitOn ":").filterMap String.toNat?
+     let bad := (List.range counts.length).find? fun k => counts.getD k 0 > 1
+     match bad with
+     | some k => [s!"[C17] the argument list of a benchmark was evaluated {counts.getD k 0} times (slot {k}) instead of once"]
+     | none =>
+       if (seg 'X') = "0" ∧ (seg 'E') ≠ evalsS ∧ (seg 'E') ≠ "" then
+         ["[C17][C12] argument lists were not evaluated exactly once per registered benchmark with args (got " ++ seg 'E' ++ ", want " ++ evalsS ++ ")"]
+       else []) ++
     -- C17: rows of a generic benchmark with args are run by the instantiation and argument they name
     (match implExecs with
      | some ex =>
@@ -667,6 +689,24 @@ def handleCore (mac : Bool) (args : List String) (obs : String) : Option Reply :
        (if (ps.act = "list" ∨ ps.act = "listapi") ∧ runs.any (·.arg.isSome) ∧
            !(runs.filter (·.arg.isSome)).all (fun c => (implOut.splitOn "\n").any fun l => labelOf l == c.arg.getD "") then
           ["[C20] --list prints a benchmark with args as a bare leaf: its argument cases are missing from the tree (F9)"] else []) ++
+       -- C12/C20: every module, group and benchmark node above a shown case is printed exactly once
+       (if ps.act ≠ "terse" ∧ (seg 'X') = "0" ∧ !clash then
+          let rows := ((implOut.splitOn "\n").filterMap parseTLine).toArray
+          let isT (l : String) : Bool := l.startsWith "t=" ∧ ((l.drop 2).toString.toNat?).isSome
+          let printed : List Nat := (List.range rows.size).filterMap fun i =>
+            let r := rows[i]!
+            let kids := ((List.range (rows.size - i - 1)).map fun k => rows[i + 1 + k]!).takeWhile fun x => x.depth > r.depth
+            let direct := kids.filter fun x => x.depth = r.depth + 1
+            if direct.isEmpty ∨ direct.all (fun x => isT x.label) then none else some r.depth
+          let shown := selected ++ ((casesAll.filter fun c => isNb c.slot).filter fun c => specSelected ps.pos ps.neg c.path)
+          let isRun (c : Case) : Bool := specShouldRun ps.cfg.runIgnored ((resolve (·.ig) ps.cfg.runtime c.chain).getD false)
+          let nodes : List (List String) := (shown.flatMap fun c =>
+            let comps := if c.hasArg ∧ (listing ∨ !isRun c) then c.rawComps.dropLast else c.rawComps
+            (List.range (comps.length - 1)).map fun k => comps.take (k + 1) ++ (if k + 1 = c.fnLevel then ["\x00fn"] else [])).eraseDups
+          let want := nodes.map fun n => (n.filter (· ≠ "\x00fn")).length - 1
+          if msEq printed want then [] else
+          [s!"[C12][C20] the modules, groups and benchmarks above the shown cases are not printed exactly once each (parent rows per depth: printed {(List.range 8).map fun d => printed.count d}, written {(List.range 8).map fun d => want.count d})"]
+        else []) ++
        -- C20: glyphs of the printed tree, judged on the text alone
        (if ps.act ≠ "terse" ∧ (seg 'X') = "0" then
           match treeGlyphsOk implOut with
@@ -682,10 +722,14 @@ def handleCore (mac : Bool) (args : List String) (obs : String) : Option Reply :
           if bad ∧ !clash then ["[C17] a case was run with an argument other than the one its label names"] else []
         else []))
   let verdict := if v.isEmpty then "ok" else "bad:" ++ " ;; ".intercalate v
+  -- the hypothesis of the C16 order theorems, evaluated on this very tree
+  let sortedTree := sortList ps.cfg.attr ps.cfg.rev fbits
+    (retainList (isSelected (filterSet ps.cfg.filters)) "" (buildTree pr))
+  let sibAll := levelsOk sortedTree
   let tag :=
     if ps.items.isEmpty then "trivial-empty" else
     s!"{ps.act}-{if ps.pos.isEmpty ∧ ps.neg.isEmpty then "nofilter" else "filter"}-ign{ps.cfg.runIgnored}" ++
-      (if r.ambiguous then "-ambiguous" else "") ++ (if clash then "-clash" else "")
+      (if r.ambiguous then "-ambiguous" else "") ++ (if clash then "-clash" else "") ++ (if sibAll then "" else "-nosibok")
   some { model := model, verdict := verdict, tag := (if mac then "mac-" else "") ++ tag }
 
 def handle (args : List String) (obs : String) : Option Reply := handleCore false args obs
